@@ -275,7 +275,7 @@ pub fn base_file(ctx: &Ctx, f: u64) -> BaseFile {
     }
 }
 
-pub const CLASSES: [&str; 5] = ["bitflip", "bytesub", "field", "region", "truncate+append"];
+pub const CLASSES: [&str; 6] = ["bitflip", "bytesub", "field", "region", "truncate+append", "unit-ops"];
 
 pub fn n_cases(ctx: &Ctx) -> u64 {
     let garbage_batches = if ctx.thorough() { 200 } else { 24 };
@@ -569,6 +569,59 @@ pub fn run_case(ctx: &Ctx, idx: u64) -> Vec<CaseOut> {
                         let cell = format!("{fmtname}|{}|region-{opname}|{fc}", reader.name());
                         let agg = per_field.entry(format!("{opname}{fc}")).or_insert_with(Agg::new);
                         judge(agg, &base, reader, &c, class, &format!("{opname} {len} at {p}"), p, delta, &cell);
+                    }
+                }
+            }
+            "unit-ops" => {
+                // whole structural units duplicated / deleted / swapped (XZ: blocks and LZMA2 chunks; the
+                // index and the block checks are what must catch it). LZIP members are self-contained,
+                // re-arranging them yields another valid file, so LZIP is not part of this class.
+                if base.fmt == Fmt::Xz {
+                    if let Ok(sw) = walk::walk_xz_stream(&base.bytes, 0) {
+                        let mut units: Vec<(String, usize, usize)> = Vec::new();
+                        for (bi, b) in sw.blocks.iter().enumerate() {
+                            units.push((format!("block{bi}"), b.header_off, b.end()));
+                            for (ci, c) in b.lzma2.chunks.iter().enumerate() {
+                                units.push((format!("block{bi}.chunk{ci}"), c.offset, c.offset + c.total()));
+                            }
+                        }
+                        for (ui, (uname, a, e)) in units.iter().enumerate() {
+                            for op in 0..3 {
+                                let mut c = base.bytes.clone();
+                                let (opname, delta): (&str, isize) = match op {
+                                    0 => {
+                                        let seg = c[*a..*e].to_vec();
+                                        c.splice(*e..*e, seg);
+                                        ("duplicate-unit", (*e - *a) as isize)
+                                    }
+                                    1 => {
+                                        c.drain(*a..*e);
+                                        ("delete-unit", -((*e - *a) as isize))
+                                    }
+                                    _ => {
+                                        // swap with the next unit of the same kind
+                                        let Some((_, a2, e2)) = units.iter().skip(ui + 1).find(|(n, _, _)| n.matches('.').count() == uname.matches('.').count() && *n != *uname) else { continue };
+                                        if *a2 < *e {
+                                            continue;
+                                        }
+                                        let first = base.bytes[*a..*e].to_vec();
+                                        let mid = base.bytes[*e..*a2].to_vec();
+                                        let second = base.bytes[*a2..*e2].to_vec();
+                                        let mut n2 = base.bytes[..*a].to_vec();
+                                        n2.extend_from_slice(&second);
+                                        n2.extend_from_slice(&mid);
+                                        n2.extend_from_slice(&first);
+                                        n2.extend_from_slice(&base.bytes[*e2..]);
+                                        c = n2;
+                                        ("swap-units", 0)
+                                    }
+                                };
+                                let kind = if uname.contains("chunk") { "lzma2-chunk" } else { "block" };
+                                let cell = format!("{fmtname}|{}|{opname}|{kind}", reader.name());
+                                let agg = per_field.entry(format!("{opname}{kind}")).or_insert_with(Agg::new);
+                                judge(agg, &base, reader, &c, opname, &format!("{kind}: {uname}"), *a, delta, &cell);
+                            }
+                        }
                     }
                 }
             }
